@@ -3,6 +3,7 @@ CONSTANTS N = 6
  MaxRetry = 1
  MaxFaults = 2
  FormatBug = FALSE
+ Stalls = FALSE
 INVARIANTS InOrderNoDup ByteExact NothingBeforeHandover
 PROPERTIES BoundedGap Terminates
 CHECK_DEADLOCK FALSE
